@@ -241,6 +241,27 @@ def scenario(rng, window, plan, nh, nn, extra, focus="mix"):
     host->NCP first); extra: random tail of labels"""
     w = World(window, rng, reactive=0.6 if focus == "react" else 0.0)
     try:
+        if focus == "stale":
+            # the host's DATA frame needs a retransmission; by then the host has accepted (and acknowledged) so many NCP frames that
+            # the acknowledgement number of its *first* transmission, read modulo 8, would cover the NCP's frames now in flight -
+            # which the line loses.  A retransmission carries the acknowledgement number of the moment it is sent.
+            w.host_submit()
+            w.deliver("h2n", "x")
+            for _ in range(8 - window + (nn % 2) * 8):
+                w.ncp_submit()
+                for _ in range(4):
+                    if w.n2h:
+                        w.deliver("n2h", "v")
+                    if w.h2n:
+                        w.deliver("h2n", "v")
+            for _ in range(window):
+                w.ncp_submit()
+            while w.n2h:
+                w.deliver("n2h", "x")
+            w.host_timeout()
+            while w.h2n:
+                w.deliver("h2n", "v")
+            nh = nn = 0
         for _ in range(nh):
             w.host_submit()
         for _ in range(nn):
@@ -314,6 +335,10 @@ def cases(ctx):
     # an upper layer that sends in reaction to what it receives, and reads that carry two frames (an ACK and a DATA frame together)
     for _ in range(ctx.n(600, 6000)):
         cs.append((rng.choice([1, 2, 3]), "", rng.randint(2, 4), rng.randint(1, 3), rng.randint(20, 80), "react"))
+    # a retransmission long after the first transmission: the acknowledgement number must be the current one
+    for window in (1, 2, 3):
+        for k in range(ctx.n(4, 12)):
+            cs.append((window, "", 0, k % 2, rng.randint(0, 30), "stale"))
     # beyond the FIFO channels of the theorem (oracle only): a duplicate whose copy arrives 2..4 frames late
     for _ in range(ctx.n(400, 6000)):
         cs.append((rng.choice([1, 2, 3]), "", rng.randint(0, 3), rng.randint(0, 3), rng.randint(20, 120), "late"))
